@@ -14,6 +14,8 @@ Streams (all through the real `trackpy` of $VERIF_REPO):
              sequence class) through `tp.batch` with processes in {1, 2, 3} (sometimes 'auto').
              DIRECT ORACLE: every table is identical to the concatenation, in frame order, of
              `tp.locate(frame)` with the `frame` column set, empty results dropped.
+  size       (inside shift / transpose / batch; `big` in the input) very long axes and frames above
+             1 Mpx / 4 Mpx, rendered from a recipe; direct oracle only, nothing goes to the driver.
   stage      model correspondence for the stage-level facts: `Find.greyDilation` on the model's own
              `Locate.embed` / `Locate.revImg` images vs `tp.grey_dilation` on the numpy images
              (ops C09GD / C09GDT, which also re-check the theorems' decidable hypotheses and
@@ -40,7 +42,17 @@ RULE = ("shift: content 2-D 10-36 px / 3-D 7-12 px per axis (blobs on noise, 2-6
         "radius + max_iterations) + 1 per side.  transpose: integer images, preprocess=False, "
         "2-D transpose (C-contiguous copy or strided view) and 3-D axis permutations.  batch: 3-6 "
         "frames of 28-44 px, ~1/3 of the frames featureless.  stage: small images (<= 12 px "
-        "content) for the exact models.  Non-trivial = at least one feature was located (shift, "
+        "content) for the exact models.  SIZE classes (few per run, rendered from recipes, direct oracle "
+        "only): shift in a canvas with one axis of 32.8k-36k / 40k / 65.6k-70k / 131k-134k px (2-D either "
+        "axis, 3-D every 8th) with the content below / across / beyond pixel 2^15 and 2^16 and at the far "
+        "end, dtype also float32; shift of a small content in a canvas above 1 Mpx / 4 Mpx and of a "
+        "rendered content above 1 Mpx / 4 Mpx (every pixel non-zero); transpose of frames above 1 Mpx "
+        "(round camera sizes and random), above 4 Mpx, with one axis beyond 2^15 / 2^16, and 250-520 px "
+        "controls: uint8 / uint16, every pixel non-zero, background strictly rising ramp / flat pedestal "
+        "/ 16-bit noise, interlaced rows or columns (period 2-8, multiplicative or additive, random "
+        "phase), 60-260 blobs with all-different amplitudes from just above the background to several "
+        "times its range; batch with one such frame (uint8 / uint16 / float32) among the small ones.  "
+        "Non-trivial = at least one feature was located (shift, "
         "transpose), at least one non-empty frame and >= 2 process counts (batch), a non-empty "
         "maxima / feature list (stage); distinct = distinct canonical input.")
 ASSUMPTIONS = [
@@ -61,6 +73,19 @@ ASSUMPTIONS = [
     "separation (a full tie of where_close, decided by row order / float rounding of the key) is "
     "outside the comparison: such cases are detected on the pre-deduplication table and counted "
     "borderline",
+    "float32 frames (shift, batch): numpy accumulates mean / std of a float32 array in float32, so the "
+    "background statistics of measure_noise and with them ep depend on the summation order at the "
+    "1e-7 level (observed 8e-8 on a 63 x 35662 canvas); ep is compared at 1e-5 relative for float32 "
+    "frames, every other column at 1e-9 (pixels are multiples of 1/256: raw_mass is exact)",
+    "big frames (one axis beyond 2^15 / 2^16 / 2^17 px, or more than 1 / 4 Mpx) are rendered from a "
+    "recipe and go through the DIRECT ORACLE only (counter big_cases_oracle_only); on them the "
+    "candidate maxima of trackpy.find.grey_dilation (called as locate calls it) are compared first "
+    "(transposed candidates / same count at both offsets) and frames with more than 30000 candidates "
+    "are not refined (counters *_too_many_candidates_skipped)",
+    "with numba absent and NumPy >= 2 the interpreted 3-D kernel raises OverflowError for a candidate "
+    "beyond pixel 32767 (Python int + np.int16 mask offset); compiled numba does not (an artefact "
+    "of the interpreted kernels; the 2-D kernels keep np.int64 coordinates): 3-D stacks with a long axis "
+    "are run with engine='python' only",
     "bandpass on a shifted content is bit-identical relative to the content because "
     "uniform_filter1d's running sum passes through exact zeros before the content; the trailing "
     "rounding residue (~1e-14) is removed by the threshold (>= 1/255)",
@@ -77,6 +102,7 @@ ASSUMPTIONS = [
 MIN_NONTRIVIAL = 20
 TOL = 1e-9
 NAMES = ["z", "y", "x"]
+BIG_CANDIDATE_CAP = 30000       # big frames with more candidate maxima than this are not refined
 
 
 def init(ctx):
@@ -344,6 +370,319 @@ def gen_stage(rng, i):
                 pct=rng.choice([64, 0, 90]))
 
 
+# ------------------------------------------------------------------------------------------
+# image SIZE as a dimension of the input space: very long axes, frames above 1 Mpx / 4 Mpx.
+# Big frames are never stored as pixel lists: the input holds a small RECIPE (shape, dtype, seed,
+# background, stripes, blobs) which `render` turns into the array deterministically (numpy
+# RandomState), so a replay file stays a few hundred bytes.  Big cases go through the DIRECT
+# ORACLE only (counter `big_cases_oracle_only`): nothing of them is sent to the Lean driver.
+
+ROUND_DIMS = [1000, 1024, 1040, 1100, 1200, 1280, 1300, 1392, 1536]
+ROUND_DIMS_4M = [2048, 2100, 2160, 2200, 2448]
+
+
+def render(rc):
+    """the frame a recipe describes (2-D).  Integer pixel values; dtype float32 holds value/256
+    (exact).  Every blob has its own amplitude, so masses do not tie; `nonzero` lifts every pixel
+    to >= 1 (all pixels count for the brightness percentile)."""
+    H, W = rc["shape"]
+    r = np.random.RandomState(rc["seed"])
+    bg = rc["bg"]
+    yy = np.arange(H, dtype=np.float64)[:, None]
+    xx = np.arange(W, dtype=np.float64)[None, :]
+    if bg["kind"] == "ramp":            # strictly rising along every axis with a non-zero slope
+        img = bg["base"] + bg["slope"][0] * yy + bg["slope"][1] * xx
+    elif bg["kind"] == "noise":
+        img = bg["base"] + r.randint(0, bg["amp"] + 1, (H, W)).astype(np.float64)
+    elif bg["kind"] == "flat":
+        img = np.full((H, W), float(bg["base"]))
+    else:                               # black
+        img = np.zeros((H, W))
+    bl = rc.get("blobs")
+    if bl and bl["n"] > 0:
+        cell = bl["cell"]
+        ch, cw = min(cell, H), min(cell, W)
+        gy, gx = max(1, H // ch), max(1, W // cw)
+        n = min(bl["n"], gy * gx)
+        cells = r.permutation(gy * gx)[:n]
+        amps = bl["amp_lo"] + bl["amp_step"] * r.permutation(n).astype(np.float64)
+        m = bl["margin"]
+        for a, c in zip(amps, cells):
+            y0, x0 = (c // gx) * ch, (c % gx) * cw
+            cy = y0 + r.uniform(min(m, ch / 2.0), max(ch - m, ch / 2.0))
+            cx = x0 + r.uniform(min(m, cw / 2.0), max(cw - m, cw / 2.0))
+            sy, sx = r.uniform(*bl["sigma"]), r.uniform(*bl["sigma"])
+            ya, yb = max(0, int(cy) - 16), min(H, int(cy) + 17)
+            xa, xb = max(0, int(cx) - 16), min(W, int(cx) + 17)
+            ys = np.arange(ya, yb, dtype=np.float64)[:, None]
+            xs = np.arange(xa, xb, dtype=np.float64)[None, :]
+            img[ya:yb, xa:xb] += a * np.exp(-((ys - cy) / sy) ** 2 / 2 - ((xs - cx) / sx) ** 2 / 2)
+    st = rc.get("stripes")
+    if st:                              # line-periodic structure: interlaced rows / columns, stripes
+        lev = np.array(st["levels"], dtype=np.float64)[np.arange(img.shape[st["axis"]]) % len(st["levels"])]
+        lev = lev[:, None] if st["axis"] == 0 else lev[None, :]
+        img = img * lev if st["mode"] == "mul" else img + lev
+    for ax, f in enumerate(rc.get("flip", [False, False])):
+        if f:
+            img = np.flip(img, axis=ax)
+    vmax = rc["vmax"]
+    q = np.round(img).clip(1 if rc.get("nonzero") else 0, vmax).astype(np.int64)
+    if rc["dtype"] == "float32":
+        return (q.astype(np.float32) / np.float32(256.0))      # exact: q < 2^24
+    return q.astype(DT[rc["dtype"]])
+
+
+def _big_dims(rng, size_class):
+    if size_class == "1M":              # 1.0 .. ~2.4 Mpx
+        if rng.random() < 0.6:
+            return [rng.choice(ROUND_DIMS), rng.choice(ROUND_DIMS)]
+        return [rng.randint(1001, 1500), rng.randint(1001, 1500)]
+    if size_class == "4M":              # above 2^22
+        if rng.random() < 0.6:
+            return [rng.choice(ROUND_DIMS_4M), rng.choice(ROUND_DIMS_4M)]
+        return [rng.randint(2050, 2300), rng.randint(2050, 2300)]
+    if size_class == "16M":             # above 2^24
+        return [rng.randint(4100, 4300), rng.randint(4100, 4300)]
+    if size_class == "long":            # one axis beyond 2^15 (sometimes 2^16)
+        d = [rng.randint(40, 72), rng.choice([32768 + rng.randint(8, 3000), 40000, 65536 + rng.randint(8, 3000)])]
+        return d if rng.random() < 0.5 else d[::-1]
+    return [rng.randint(250, 520), rng.randint(250, 520)]      # "mid": below every size switch
+
+
+def _big_params(rng, nd=2):
+    iso = rng.random() < 0.6
+    diam = [rng.choice([7, 9, 11])] * nd if iso else rng.choice([[9, 7], [7, 9], [11, 7], [7, 11], [11, 9]])
+    kw = dict(diameter=list(diam), percentile=rng.choice([64, 64, 64, 50, 30, 80, 90]), max_iterations=10,
+              engine="python", characterize=rng.random() < 0.9, minmass_q=rng.choice([None, None, 0.3]))
+    if rng.random() < 0.3:
+        kw["separation"] = [d + rng.choice([0, 2, 5]) for d in diam]
+    return kw
+
+
+def _dil_reach(kw, axis, nd=2):
+    """how far (towards larger indices) grey_dilation's box reaches along `axis`"""
+    sep = (kw.get("separation") or [d + 1 for d in kw["diameter"]])[axis]
+    return (int(2 * sep / math.sqrt(nd)) - 1) // 2
+
+
+def _big_recipe(rng, shape, dtype, kw, nonzero=True, allow_noise=True, stripes_ok=True,
+                fixed_percentile=False):
+    """background x line-periodic structure x blobs for a big frame.  The classes are chosen so
+    that the number of candidate maxima stays in the hundreds / thousands: a background plateau
+    wider than the dilation box makes EVERY pixel of it a candidate (hundreds of thousands of
+    refinements in the python engine), so plateaus are either strictly rising ramps (16 bit and
+    float) or stay below the brightness threshold (flat pedestals: the percentile is kept above
+    the share of the brightest stripe)."""
+    H, W = shape
+    wide = dtype in ("uint16", "float32")
+    vmax = 65535 if wide else 255
+    # 8 bit: flat pedestal only.  A gradient of <= 255 counts over > 1000 px has plateaus wider than
+    # the dilation box, and 8-bit noise repeats its top value inside every box (equal pixels are ALL
+    # candidates): both give > 10^5 candidates per frame (counter transpose_big_too_many_candidates_skipped)
+    kinds = (["ramp"] * 4 + ["flat", "noise"]) if wide else ["flat"]
+    if not allow_noise:
+        kinds = [k for k in kinds if k != "noise"]
+    kind = rng.choice(kinds)
+    if kind == "ramp":
+        slope = [rng.choice([0, 2, 3, 4]) if n <= 8000 else 0 for n in (H, W)]
+        if not any(slope):
+            slope[0 if H <= W else 1] = rng.choice([2, 3, 4])
+        bg = dict(kind="ramp", base=rng.choice([50, 200, 1000]), slope=slope)
+        top = bg["base"] + slope[0] * H + slope[1] * W
+    elif kind == "noise":
+        bg = dict(kind="noise", base=rng.choice([50, 500]), amp=rng.choice([300, 1000, 4000]))
+        top = bg["base"] + bg["amp"]
+    else:
+        bg = dict(kind="flat", base=rng.choice([10, 30, 60]) if not wide else rng.choice([30, 300, 2000]))
+        top = bg["base"]
+    stripes = None
+    if stripes_ok and rng.random() < 0.75:
+        axis = rng.randrange(2)
+        period = rng.choice([2, 2, 2, 3, 4, 4, 5, 8])
+        if fixed_percentile and kind != "ramp":
+            period = 2              # the caller cannot raise the percentile above the brightest phase
+        if period > max(2, _dil_reach(kw, axis)):
+            period = 2              # the next line of the same phase must lie inside the dilation box
+        if rng.random() < 0.65:
+            lev = [1.0] + [rng.choice([0.5, 0.6, 0.7, 0.8, 0.9]) for _ in range(period - 1)]
+            mode = "mul"
+        else:
+            step = max(2, top // rng.choice([4, 8, 16]))
+            lev = [float(rng.randint(0, 3) * step) for _ in range(period)]
+            if len(set(lev)) == 1:
+                lev[rng.randrange(period)] += step
+            mode = "add"
+            top += max(lev)
+        rng.shuffle(lev)            # which phase line 0 is in
+        stripes = dict(axis=axis, period=period, levels=lev, mode=mode)
+        if kind != "ramp" and not fixed_percentile:
+            # flat / noisy pedestal: the brightest phase is a plateau; keep the threshold above it
+            share = 100.0 * (1.0 - 1.0 / period)
+            kw["percentile"] = max(kw["percentile"], rng.choice([p for p in (64, 80, 90, 95, 98) if p > share + 5][:2]))
+    n_target = rng.randint(60, 260)
+    cell = max(44, int(math.sqrt(H * W / float(n_target))))
+    head = vmax - top
+    # amplitudes from barely above the local background to several times the background range: the
+    # peaks of some blobs lie just below, of others just above the brightness threshold wherever in
+    # the background range the percentile puts it
+    amp_lo = rng.choice([40, 100, 300]) if wide else rng.choice([15, 40, 60])
+    amp_hi = min(head - 2, max(2000, rng.choice([top // 2, top, 2 * top]))) if wide else head - 2
+    n_cells = max(1, H // min(cell, H)) * max(1, W // min(cell, W))
+    n = min(n_target, n_cells)
+    step = round((amp_hi - amp_lo) / float(max(1, n)), 3)
+    blobs = dict(n=n, cell=cell, margin=18, amp_lo=float(amp_lo), amp_step=float(step),
+                 sigma=[1.3, rng.choice([2.0, 2.8])])
+    return dict(shape=[H, W], dtype=dtype, vmax=vmax, seed=rng.randrange(1 << 30), bg=bg, stripes=stripes,
+                blobs=blobs, nonzero=nonzero, flip=[rng.random() < 0.3, rng.random() < 0.3])
+
+
+def gen_transpose_big(rng, i, thorough=False):
+    """transposition clause on frames above 1 Mpx / 4 Mpx, on frames with one very long axis and (as
+    a control below every size switch) on mid-sized frames: every pixel non-zero, line-periodic
+    structure along one axis, many blobs of all-different amplitudes"""
+    size_class = ["1M", "1M", "1M", "4M", "1M", "long", "1M", "mid"][i % 8]
+    if thorough and i % 32 == 11:
+        size_class = "16M"              # above 2^24 pixels
+    shape = _big_dims(rng, size_class)
+    dtype = rng.choice(["uint16", "uint16", "uint8"])
+    kw = _big_params(rng)
+    kw["preprocess"] = False
+    rc = _big_recipe(rng, shape, dtype, kw, nonzero=True, allow_noise=size_class not in ("4M", "16M"))
+    return dict(stream="transpose", big=size_class, kind="big-" + rc["bg"]["kind"], dtype=dtype,
+                shape=shape, recipe=rc, perm=[1, 0], view=rng.random() < 0.3, kw=kw)
+
+
+LONG_OFFSET_CLASSES = ["low", "below15", "straddle15", "above15", "straddle16", "above16", "end"]
+
+
+def _long_offset(rng, cls, L, s, pad):
+    """offset of a content of length s along an axis of length L, by class relative to 2^15 / 2^16"""
+    lo, hi = pad, L - s - pad
+    def clamp(v):
+        return max(lo, min(hi, v))
+    if cls == "low":
+        return clamp(lo + rng.randint(0, 60))
+    if cls == "below15":
+        return clamp(32768 - s - rng.randint(1, 40))
+    if cls == "straddle15":
+        return clamp(32768 - rng.randint(1, s - 1))
+    if cls == "above15":
+        return clamp(rng.randint(32768, min(hi, 65535 - s)) if hi > 32768 else hi)
+    if cls == "straddle16":
+        return clamp(65536 - rng.randint(1, s - 1))
+    if cls == "above16":
+        return clamp(rng.randint(65536, hi) if hi > 65536 else hi)
+    return clamp(hi - rng.randint(0, 30))
+
+
+def gen_shift_long(rng, i):
+    """shift clause in a canvas with ONE very long axis (line-scan frames, kymographs, deep stacks):
+    the small contents of gen_shift pasted at offsets below, across and beyond pixel 2^15 / 2^16"""
+    want3 = i % 8 == 3
+    # 3-D (every 8th case): the two thin axes multiply, so the stack is kept narrow: no preprocessing
+    # (no halo), one refinement iteration, integer dtype (a float64 stack would be 8x the memory)
+    while True:
+        inp = gen_shift(rng, i)
+        nd = len(inp["shape"])
+        if (nd == 3) == want3:
+            break
+    kw = inp["kw"]
+    if nd == 3:
+        kw["preprocess"] = False
+        kw["max_iterations"] = 1
+        kw.pop("noise_size", None)
+        kw.pop("smoothing_size", None)
+        if inp["dtype"] == "float64":
+            inp["dtype"] = "uint8"
+        # UNCHANGED-TREE OBSERVATION (reported, class kept out): with numba absent the 3-D kernel runs
+        # interpreted and computes `int(round(coord)) - radius + maskZ[i]` = Python int + np.int16,
+        # which under NumPy >= 2 raises "OverflowError: Python integer 32768 out of bounds for int16"
+        # for a candidate beyond pixel 32767 (replay: canvas [19, 33940, 22], off1 [5, 32765, 5] vs
+        # off2 [5, 32734, 5], engine='numba').  Compiled numba types the sum int64; the 2-D kernels keep
+        # np.int64 coordinates and are not affected.  An artefact of the interpreted kernels (see
+        # ASSUMPTIONS), not of locate: 3-D long stacks are run with the python engine only.
+        kw["engine"] = "python"
+    if rng.random() < 0.5 and inp["dtype"] == "float64":
+        inp["dtype"] = "float32"
+    pad = needed_pad(kw, nd)
+    shape = inp["shape"]
+    ax = rng.randrange(nd)
+    if nd == 3:
+        L = 32768 + rng.randint(200, 1500)
+    else:
+        L = rng.choice([32768 + rng.randint(100, 3000), 40000, 65536 + rng.randint(100, 5000),
+                        65536 + rng.randint(100, 5000), 131072 + rng.randint(100, 3000)])
+    canvas = [s + 2 * p + (1 if nd == 3 else rng.randint(1, 8)) for s, p in zip(shape, pad)]
+    canvas[ax] = L
+    avail = [c for c in LONG_OFFSET_CLASSES
+             if L > 65536 + shape[ax] + 2 * pad[ax] + 1 or c not in ("straddle16", "above16")]
+    c1 = rng.choice(["low", "low", "below15", "straddle15"]) if rng.random() < 0.75 else rng.choice(avail)
+    c2 = rng.choice([c for c in avail if c not in ("low", c1)] or ["end"])
+    offs = []
+    for cls in (c1, c2):
+        o = [rng.randint(p, c - s - p) for p, c, s in zip(pad, canvas, shape)]
+        o[ax] = _long_offset(rng, cls, L, shape[ax], pad[ax])
+        offs.append(o)
+    if offs[0] == offs[1]:
+        offs[1][ax] = max(pad[ax], offs[1][ax] - 1)
+    inp.update(canvas=canvas, off1=offs[0], off2=offs[1], big="long", long_axis=ax,
+               off_classes=[c1, c2])
+    return inp
+
+
+def gen_shift_bigarea(rng, i):
+    """shift clause in a canvas above 1 Mpx (every 4th: above 4 Mpx): a small content at two offsets
+    anywhere, or (every 3rd) a big rendered content (all pixels non-zero) moved by a few pixels"""
+    big4 = i % 4 == 3
+    if i % 3 == 2:
+        dims = _big_dims(rng, "4M" if big4 else "1M")
+        dtype = rng.choice(["uint16", "uint8", "float32"])
+        kw = _big_params(rng)
+        kw["preprocess"] = False
+        rc = _big_recipe(rng, dims, dtype, kw, nonzero=True, allow_noise=not big4)
+        pad = needed_pad(kw, 2)
+        extra = [rng.randint(2, 40) for _ in range(2)]
+        canvas = [s + 2 * p + e for s, p, e in zip(dims, pad, extra)]
+        offs = [[rng.randint(p, c - s - p) for p, c, s in zip(pad, canvas, dims)] for _ in range(2)]
+        if offs[0] == offs[1]:
+            offs[1][0] = pad[0] if offs[0][0] != pad[0] else pad[0] + 1
+        return dict(stream="shift", big="4M-content" if big4 else "1M-content", kind="big-" + rc["bg"]["kind"],
+                    dtype=dtype, shape=dims, recipe=rc, canvas=canvas, off1=offs[0], off2=offs[1], kw=kw)
+    inp = gen_shift(rng, i)
+    while len(inp["shape"]) == 3:
+        inp = gen_shift(rng, i)
+    if rng.random() < 0.3 and inp["dtype"] == "float64":
+        inp["dtype"] = "float32"
+    pad = needed_pad(inp["kw"], 2)
+    canvas = _big_dims(rng, "4M" if big4 else "1M")
+    offs = [[rng.randint(p, c - s - p) for p, c, s in zip(pad, canvas, inp["shape"])] for _ in range(2)]
+    if offs[0] == offs[1]:
+        offs[1][0] = pad[0] if offs[0][0] != pad[0] else pad[0] + 1
+    inp.update(canvas=canvas, off1=offs[0], off2=offs[1], big="4M-canvas" if big4 else "1M-canvas")
+    return inp
+
+
+def gen_batch_big(rng, i):
+    """batch clause: ONE big frame (above 1 Mpx, or with an axis beyond 2^15) among small ones"""
+    inp = gen_batch(rng, i)
+    size_class = ["1M", "long", "1M", "4M"][i % 4]
+    dims = _big_dims(rng, size_class)
+    dtype = rng.choice(["uint8", "uint16", "float32"])
+    kwb = dict(diameter=[inp["kw"]["diameter"]] * 2, percentile=64)
+    # with preprocessing a line-periodic pedestal leaves a ripple above the bandpass threshold on
+    # every line (a candidate maximum per pixel): stripes only without preprocessing
+    pre = inp["kw"]["preprocess"]
+    rc = _big_recipe(rng, dims, dtype, kwb, nonzero=rng.random() < 0.5, allow_noise=False,
+                     stripes_ok=not pre, fixed_percentile=True)
+    if rng.random() < 0.3:
+        rc["bg"] = dict(kind="black")
+        rc["nonzero"] = False
+    inp["frames"][rng.randrange(len(inp["frames"]))] = dict(kind="big-" + size_class, pixels=None, recipe=rc)
+    inp["big"] = size_class
+    inp["procs"] = [1, 2, 3]
+    return inp
+
+
 def gen_cases(ctx):
     for inp in ctx.corpus():
         yield inp
@@ -351,10 +690,23 @@ def gen_cases(ctx):
     ns = ctx.n(400, 5000)
     nt = ctx.n(400, 5000)
     ng = ctx.n(500, 8000)
+    # image size as an input dimension (few: each costs up to seconds)
+    nsl = ctx.n(24, 400)        # shift, one very long axis
+    nsa = ctx.n(9, 120)         # shift, canvas above 1 Mpx / 4 Mpx
+    ntb = ctx.n(40, 600)        # transpose, frames above 1 Mpx / 4 Mpx (thorough: 16 Mpx) / long / mid
+    nbb = ctx.n(4, 60)          # batch, one big frame among small ones
     # interleave so that the slow batch cases are spread over the pool
     for i in range(max(ns, nt, ng)):
         if i < nb:
             yield gen_batch(ctx.rng("batch", i), i)
+        if i < nbb:
+            yield gen_batch_big(ctx.rng("batch-big", i), i)
+        if i < nsl:
+            yield gen_shift_long(ctx.rng("shift-long", i), i)
+        if i < nsa:
+            yield gen_shift_bigarea(ctx.rng("shift-bigarea", i), i)
+        if i < ntb:
+            yield gen_transpose_big(ctx.rng("transpose-big", i), i, thorough=ctx.thorough)
         if i < ns:
             yield gen_shift(ctx.rng("shift", i), i)
         if i < nt:
@@ -372,10 +724,17 @@ def gen_cases(ctx):
 DT = {"uint8": np.uint8, "uint16": np.uint16, "float64": np.float64, "int64": np.int64}
 
 
+DT["float32"] = np.float32
+
+
 def build(inp):
+    if inp.get("recipe") is not None:
+        return render(inp["recipe"])
     a = np.array(inp["pixels"], dtype=np.int64).reshape(inp["shape"])
     if inp.get("dtype") == "float64":
         return a.astype(np.float64) / 256.0        # exact
+    if inp.get("dtype") == "float32":
+        return a.astype(np.float32) / np.float32(256.0)        # exact
     return a.astype(DT[inp.get("dtype", "uint8")])
 
 
@@ -416,9 +775,14 @@ def sort_rows(df, poscols):
     return df.iloc[order].reset_index(drop=True)
 
 
-def compare_tables(A, B, poscols, delta):
+EP_RTOL_FLOAT32 = 1e-5
+
+
+def compare_tables(A, B, poscols, delta, ep_rtol=TOL):
     """A, B: DataFrames with the SAME column names (B already renamed); rows matched after sorting
     by position (A shifted by delta).  Returns (list of differing columns, detail)"""
+    if (len(A) == 0) != (len(B) == 0):      # (an empty table also lacks the ep columns)
+        return ["<rows>"], "%d rows vs %d rows" % (len(A), len(B))
     if list(A.columns) != list(B.columns):
         return ["<columns>"], "columns %s vs %s" % (list(A.columns), list(B.columns))
     skip_ep = False
@@ -452,7 +816,7 @@ def compare_tables(A, B, poscols, delta):
                 ok = (math.isnan(av[k]) and math.isnan(bv[k])) or abs(av[k] - bv[k]) <= TOL * (es + abs(av[k]))
             elif c.startswith("ep"):
                 ok = (math.isnan(av[k]) and math.isnan(bv[k])) or \
-                    abs(av[k] - bv[k]) <= TOL * max(abs(av[k]), abs(bv[k])) + 1e-12
+                    abs(av[k] - bv[k]) <= ep_rtol * max(abs(av[k]), abs(bv[k])) + 1e-12
             else:
                 ok = close(av[k], bv[k])
             if not ok:
@@ -504,6 +868,28 @@ def full_tie(img, kw):
     return False
 
 
+def candidate_count(img, kw):
+    """how many candidate maxima locate will hand to the refinement (bandpass -> convert_to_int ->
+    grey_dilation with locate's margin); None if a stage raises.  Used on BIG frames only, before the
+    python-engine refinement is let loose on them."""
+    from trackpy.find import grey_dilation
+    from trackpy.preprocessing import bandpass, convert_to_int
+    nd = img.ndim
+    diam = kw["diameter"] if isinstance(kw["diameter"], (list, tuple)) else [kw["diameter"]] * nd
+    sep = tuple(kw.get("separation") or [d + 1 for d in diam])
+    sm = tuple(kw.get("smoothing_size") or diam)
+    try:
+        image = img
+        integer = np.issubdtype(img.dtype, np.integer)
+        if kw.get("preprocess", True):
+            image = bandpass(img, kw.get("noise_size", 1), sm, 1 if integer else 1 / 255.)
+        _, image = convert_to_int(image, img.dtype if integer else np.uint8)
+        margin = tuple(max(d // 2, s // 2 - 1, m // 2) for d, s, m in zip(diam, sep, sm))
+        return len(grey_dilation(image, sep, kw.get("percentile", 64), margin, precise=False))
+    except Exception:
+        return None
+
+
 def run_locate(img, kwargs):
     import trackpy as tp
     try:
@@ -531,6 +917,38 @@ def run_shift(ctx, inp):
               "shift_maxiter_%d" % kw["max_iterations"]):
         res.stat(k)
     sig = dict(stream="shift", ndim=nd, preprocess=bool(kw["preprocess"]))
+    if inp.get("big"):
+        # size classes: direct oracle only (the stage stream feeds the Lean model with small images)
+        res.stat("big_cases_oracle_only")
+        res.stat("shift_big_" + inp["big"])
+        res.stat("shift_big_canvas_mpx_x10", int(round(np.prod(inp["canvas"]) / 1e5)))
+        sig["big"] = inp["big"]
+        if inp["big"] == "long":
+            ax = inp["long_axis"]
+            res.stat("shift_long_axis_%s" % NAMES[-nd:][ax])
+            res.stat("shift_long_axis_gt_2p%d" % (17 if inp["canvas"][ax] > 131072 else
+                                                   16 if inp["canvas"][ax] > 65536 else 15))
+            for c in inp.get("off_classes", []):
+                res.stat("shift_long_offset_" + c)
+            for o in (inp["off1"], inp["off2"]):
+                end = o[ax] + inp["shape"][ax]
+                res.stat("shift_long_content_%s" % ("beyond_2p16" if o[ax] >= 65536 else
+                                                    "across_2p16" if end > 65536 else
+                                                    "beyond_2p15" if o[ax] >= 32768 else
+                                                    "across_2p15" if end > 32768 else "below_2p15"))
+    if inp.get("recipe") is not None:
+        # big content: the candidate maxima first (cheap, vectorised); as many at both offsets, and
+        # few enough for the python-engine refinement
+        n1, n2 = candidate_count(big1, kw), candidate_count(big2, kw)
+        if n1 is not None and n2 is not None:
+            res.stat("shift_big_candidates", n1)
+            if n1 != n2:
+                res.violation("property-violation", "content moved by %s in a %s canvas: %d candidate maxima "
+                              "at one offset, %d at the other" % (delta, "x".join(map(str, inp["canvas"])), n1, n2),
+                              impl=dict(candidates=[n1, n2]), signature=dict(sig, what="shift-changes-candidates"))
+            if max(n1, n2) > BIG_CANDIDATE_CAP:
+                res.stat("shift_big_too_many_candidates_skipped")
+                return res
     st0, ref = run_locate(big1, locate_kwargs(kw))
     kwargs = locate_kwargs(kw, ref if st0 == "ok" else None)
     stA, A = run_locate(big1, kwargs)
@@ -549,7 +967,13 @@ def run_shift(ctx, inp):
         res.stat("shift_maxsize_filter")
     if "topn" in kwargs:
         res.stat("shift_topn")
-    bad, detail = compare_tables(A, B, pos, delta)
+    ep_rtol = TOL
+    if inp["dtype"] == "float32":
+        # measure_noise takes mean / std of the raw float32 pixels with float32 accumulators: the
+        # background statistics (hence ep) are reproducible to float32 rounding only
+        ep_rtol = EP_RTOL_FLOAT32
+        res.stat("shift_float32_ep_at_1e-5")
+    bad, detail = compare_tables(A, B, pos, delta, ep_rtol=ep_rtol)
     if detail and detail.startswith("C08-ep-defect"):
         res.stat("c08_aniso_ep_defect_ep_columns_skipped")
     if bad:
@@ -578,6 +1002,31 @@ def perm_list(v, perm):
     return [v[p] for p in perm]
 
 
+def big_candidates(img, imgT, kw, kwT, perm):
+    """grey_dilation as locate calls it without preprocessing, on the frame and on the permuted frame:
+    (count, count of the permuted frame, is the second set the permuted first set)"""
+    from trackpy.find import grey_dilation
+    out = []
+    try:
+        for a, k in ((img, kw), (imgT, kwT)):
+            diam = k["diameter"]
+            sep = tuple(k.get("separation") or [d + 1 for d in diam])
+            margin = tuple(max(d // 2, s // 2 - 1, d // 2) for d, s in zip(diam, sep))
+            c = np.asarray(grey_dilation(a, sep, k.get("percentile", 64), margin, precise=False))
+            out.append(c.reshape(-1, a.ndim).astype(np.int64))
+    except Exception:
+        return None, None, None
+    a, b = out
+    b = b[:, np.argsort(perm)] if len(b) else b      # axis j of the permuted frame is axis perm[j]
+    if len(a) != len(b):
+        return len(a), len(b), False
+    if len(a) == 0:
+        return 0, 0, True
+    a = a[np.lexsort(a.T[::-1])]
+    b = b[np.lexsort(b.T[::-1])]
+    return len(a), len(b), bool(np.array_equal(a, b))
+
+
 def run_transpose(ctx, inp):
     res = Result()
     img = build(inp)
@@ -599,6 +1048,36 @@ def run_transpose(ctx, inp):
               "transpose_view" if inp.get("view") else "transpose_copy"):
         res.stat(k)
     sig = dict(stream="transpose", ndim=nd)
+    if inp.get("big"):
+        res.stat("big_cases_oracle_only")
+        res.stat("transpose_big_" + inp["big"])
+        res.stat("transpose_big_dtype_" + inp["dtype"])
+        res.stat("transpose_big_mpx_x10", int(round(img.size / 1e5)))
+        rc = inp.get("recipe") or {}
+        st = rc.get("stripes")
+        res.stat("transpose_big_stripes_%s" % ("none" if not st else "%s_axis%d_period%d"
+                                               % (st["mode"], st["axis"], st["period"])))
+        res.stat("transpose_big_nonzero_px_gt_1e6" if int(np.count_nonzero(img)) > 10 ** 6
+                 else "transpose_big_nonzero_px_le_1e6")
+        sig["big"] = inp["big"]
+        # the candidate maxima first (vectorised, cheap): they must be the transposed candidates;
+        # a frame with a candidate on every pixel of a plateau is not refined (python engine)
+        na, nb_, same_c = big_candidates(img, imgT, kw, kwT, perm)
+        if na is None:
+            res.stat("transpose_big_candidates_raise")
+        else:
+            res.stat("transpose_big_candidates", na)
+            if not same_c:
+                res.violation("property-violation",
+                              "axes permuted by %s on a %s frame: the candidate maxima of the transposed frame "
+                              "are not the transposed candidates (%d vs %d)" % (perm, "x".join(map(str, img.shape)), na, nb_),
+                              impl=dict(candidates=na, candidates_transposed=nb_),
+                              signature=dict(sig, what="transpose-changes-candidates"))
+                if max(na, nb_) > BIG_CANDIDATE_CAP:
+                    return res
+            elif na > BIG_CANDIDATE_CAP:
+                res.stat("transpose_big_too_many_candidates_skipped")
+                return res
     st0, ref = run_locate(img, locate_kwargs({k: v for k, v in kw.items() if k != "topn"}))
     kwargs = locate_kwargs(kw, ref if st0 == "ok" else None)
     if "topn" in kwargs:
@@ -706,8 +1185,12 @@ def run_batch(ctx, inp):
     shape = inp["shape"]
     frames = []
     for f, no in zip(inp["frames"], inp["frame_nos"]):
-        a = np.zeros(shape, dtype=np.uint8) if f["pixels"] is None else \
-            np.array(f["pixels"], dtype=np.uint8).reshape(shape)
+        if f.get("recipe") is not None:
+            a = render(f["recipe"])             # the one big frame (its own shape and dtype)
+        elif f["pixels"] is None:
+            a = np.zeros(shape, dtype=np.uint8)
+        else:
+            a = np.array(f["pixels"], dtype=np.uint8).reshape(shape)
         frames.append(a if no is None else Img(a, no))
     kw = dict(inp["kw"])
     diam = kw.pop("diameter")
@@ -716,6 +1199,19 @@ def run_batch(ctx, inp):
     res.stat("batch_container_" + inp["container"])
     res.stat("batch_frameno_" + ("attr" if any(n is not None for n in inp["frame_nos"]) else "position"))
     sig = dict(stream="batch")
+    if inp.get("big"):
+        res.stat("big_cases_oracle_only")       # (the model only sees the row counts per frame)
+        res.stat("batch_big_" + inp["big"])
+        sig["big"] = inp["big"]
+        for f, fr in zip(inp["frames"], frames):
+            if f.get("recipe") is not None:
+                res.stat("batch_big_dtype_" + f["recipe"]["dtype"])
+                nc = candidate_count(np.asarray(fr), dict(kw, diameter=diam))
+                if nc is not None:
+                    res.stat("batch_big_candidates", nc)
+                    if nc > BIG_CANDIDATE_CAP:     # not worth minutes of python-engine refinement
+                        res.stat("batch_big_too_many_candidates_skipped")
+                        return res
     # expectation from the statement: locate on each frame, tagged, concatenated
     parts, counts = [], []
     for i, fr in enumerate(frames):
